@@ -132,6 +132,7 @@ class Labeller:
         self.params = params or {}
         self._busy = set()
         self._fold = None
+        self.depth = 0
         # local containers that are filled in place (append / extend / += ...) must stay names: their unique `x = []`
         # definition says nothing about their content
         self.mutated = set()
@@ -210,7 +211,7 @@ class Labeller:
                 else:
                     labs.append(UNKNOWN)
             lab = join(labs)
-            if lab.kind in ('EMPTY', 'SRCS', 'LINKS', 'MAPPEDS', 'CLONES'):
+            if lab.kind in ('EMPTY', 'SRCS', 'LINKS', 'MAPPEDS', 'CLONES', 'SRCMAP'):
                 lab = self._with_insertions(name, lab)
             return lab
         finally:
@@ -234,6 +235,16 @@ class Labeller:
                 else:
                     continue
                 labs.append(l)
+            elif isinstance(n, ast.Assign) and len(n.targets) == 1 and isinstance(n.targets[0], ast.Subscript) and \
+                    isinstance(n.targets[0].value, ast.Name) and n.targets[0].value.id == name:
+                at = self.cfg.node_of(n)
+                cond = bool(at is not None and self.cfg.conditions(at))
+                k = self.lab(self.expand(n.targets[0].slice, at), at, {})
+                v = self.lab(self.expand(n.value, at), at, {})
+                if k.kind == 'SRCKEY' and k.origin is not None and k.origin == v.origin and v.kind in ('SRC', 'NEWCLONE'):
+                    labs.append(Lab('SRCMAP' if v.kind == 'SRC' else 'NEWMAP', set(v.sel) | ({'FILTERED'} if cond else set())))
+                else:
+                    labs.append(UNKNOWN)
         return join(labs)
 
     # ---------------------------------------------------------------- binders
@@ -392,6 +403,17 @@ class Labeller:
                 return Lab('NEWCLONE', b.sel, b.origin)
             if fn.attr == '_WBS__clone_tasks' and b.kind == 'SELF':
                 return Lab('MAP')
+            own_cls = isinstance(fn.value, ast.Name) and fn.value.id == self.f.cls
+            if (b.kind == 'SELF' or own_cls) and self.f.cls and self.depth < 2 and not e.keywords:
+                h = self.prog.find_method(self.f.cls, name)
+                if h is not None and h.kind in ('method', 'static') and not any(isinstance(a, ast.Starred) for a in e.args):
+                    ps = list(h.params)[1:] if h.kind == 'method' else list(h.params)
+                    if len(e.args) <= len(ps):
+                        sub = Labeller(self.ctx, h, None, {p: self.lab(a, at, env) for p, a in zip(ps, e.args)})
+                        sub.depth = self.depth + 1
+                        rets = [r for r in walk_no_nested(h.node) if isinstance(r, ast.Return) and r.value is not None]
+                        if rets:
+                            return join([sub.label(r.value) for r in rets])
             if b.kind == 'VAL':
                 return Lab('VAL')
             return UNKNOWN
@@ -509,6 +531,63 @@ def copy_idiom_in_reach(ctx, f: Func, exclude=()) -> bool:
     return False
 
 
+def _names_helper(ctx, f: Func, it: ast.AST):
+    """`for k in X.<helper>()` where the helper only yields / returns attribute names of its receiver:
+         def helper(self): for k in self.__dict__.keys(): if not k.startswith('_'): yield k
+         def helper(self): return [k for k in self.__dict__ if not k.startswith('_')]
+    -> (X, [(filter atom over the name KEY, polarity)], helper key name) or None"""
+    it, _ = strip_seq_wrappers(it)
+    if not (isinstance(it, ast.Call) and isinstance(it.func, ast.Attribute) and not it.args and not it.keywords):
+        return None
+    ci = [c for c in ctx.cg.calls_in(f) if c.node is it or (isinstance(c.node, ast.Call) and same(c.node, it))]
+    targets = ci[0].targets if ci else []
+    if len(targets) != 1 or targets[0].kind != 'method':
+        return None
+    h = targets[0]
+    hs = h.self_name
+    body = [s for s in h.body if not (isinstance(s, ast.Expr) and isinstance(s.value, ast.Constant))]
+    ex = Expander(ctx.prog, h, ctx.typer)
+    cfg = cfg_of(h)
+    if len(body) == 1 and isinstance(body[0], ast.Return) and isinstance(body[0].value, (ast.ListComp, ast.GeneratorExp)):
+        comp = ex.expand(body[0].value, cfg.node_of(body[0]))
+        if len(comp.generators) != 1 or not isinstance(comp.generators[0].target, ast.Name):
+            return None
+        g = comp.generators[0]
+        ds = _dict_source(g.iter)
+        if ds is None or ds[1] != 'keys' or not (isinstance(ds[0], ast.Name) and ds[0].id == hs):
+            return None
+        if not (isinstance(comp.elt, ast.Name) and comp.elt.id == g.target.id):
+            return None
+        atoms = []
+        for c in g.ifs:
+            atoms += facts.split_conj(c, True)
+        return it.func.value, atoms, g.target.id
+    if len(body) == 1 and isinstance(body[0], ast.For) and isinstance(body[0].target, ast.Name):
+        fo = body[0]
+        k = fo.target.id
+        ds = _dict_source(ex.expand(fo.iter, cfg.node_of(fo)))
+        if ds is None or ds[1] != 'keys' or not (isinstance(ds[0], ast.Name) and ds[0].id == hs):
+            return None
+        yields = [n for n in walk_no_nested(h.node) if isinstance(n, (ast.Yield, ast.YieldFrom))]
+        rets = [n for n in walk_no_nested(h.node) if isinstance(n, ast.Return) and n.value is not None]
+        if len(yields) != 1 or rets or not (isinstance(yields[0], ast.Yield) and isinstance(yields[0].value, ast.Name)
+                                            and yields[0].value.id == k):
+            return None
+        stores = [n for n in walk_no_nested(h.node) if isinstance(n, (ast.Assign, ast.AugAssign, ast.Delete))]
+        if stores:
+            return None
+        atoms = []
+        for t, pol in cfg.conditions(cfg.node_containing(yields[0])):
+            atoms += facts.split_conj(ex.expand(t, cfg.node_containing(t), stop={k}), pol)
+        return it.func.value, atoms, k
+    return None
+
+
+def _rename(atom: ast.AST, old: str, new: str) -> ast.AST:
+    from sa.flow import subst
+    return subst(atom, {old: ast.Name(id=new, ctx=ast.Load())}) if old != new else atom
+
+
 def _direct_copy_loops(ctx, f: Func) -> List[CopyLoop]:
     """every dynamic attribute store `D.<k> = ...` inside a loop whose variable k ranges over the attribute names of X"""
     cfg = cfg_of(f)
@@ -519,8 +598,13 @@ def _direct_copy_loops(ctx, f: Func) -> List[CopyLoop]:
             continue
         hn = cfg.node_of(fo)
         ds = _dict_source(ex.expand(fo.iter, hn))
+        helper_atoms = []
         if ds is None:
-            continue
+            nh = _names_helper(ctx, f, fo.iter)
+            if nh is None or not isinstance(fo.target, ast.Name):
+                continue
+            ds = (nh[0], 'keys')
+            helper_atoms = [(_rename(a, nh[2], fo.target.id), p) for a, p in nh[1]]
         src_expr, mode = ds
         key = val_name = None
         if mode == 'keys' and isinstance(fo.target, ast.Name):
@@ -546,6 +630,7 @@ def _direct_copy_loops(ctx, f: Func) -> List[CopyLoop]:
                     continue
                 cn = cfg.node_containing(n) or cfg.node_of(n)
                 atoms = []
+                atoms = list(helper_atoms)
                 hdr_ids = {(id(t), p) for t, p in header}
                 stop = {key, val_name or key} | {x.id for x in ast.walk(dst) if isinstance(x, ast.Name)}
                 value = ex.expand(value, cn, stop=stop)
@@ -614,6 +699,301 @@ def report_copy_loop(o, f: Func, cl: CopyLoop, what: str) -> bool:
                                       f"root sentinel) is copied by reference, so the copy shares it with the source")
         ok = False
     return ok
+
+
+# =====================================================================================================================
+# Task.clone
+
+# spec side (property text): a Task copy is made "without relations" and reports the NEW owner
+RELATION_STATE = {'_Task__parent', '_Task__children', '_Task__predecessors', '_Task__successors'}
+OWNER_STATE = {'_Task__wbs'}
+RELATION_PARAMS = {'parent', 'children', 'predecessors', 'successors'}
+
+
+def _self_stores(f):
+    """(stmt, attr, value) for `self.<attr> = value` in f"""
+    out = []
+    for st, tgt, val in facts.attr_stores(f):
+        if isinstance(tgt.value, ast.Name) and tgt.value.id == f.self_name:
+            out.append((st, tgt.attr, val))
+    return out
+
+
+def _ctor_binding(call: ast.Call, init):
+    """constructor parameter -> argument expression (None if *args / **kwargs make it undecidable)"""
+    params = init.params[1:]
+    bind = {}
+    for i, a in enumerate(call.args):
+        if isinstance(a, ast.Starred) or i >= len(params):
+            return None
+        bind[params[i]] = a
+    for k in call.keywords:
+        if k.arg is None:
+            return None
+        bind[k.arg] = k.value
+    return bind
+
+
+class CloneShape:
+    """how Task.clone builds its result: kind 'ctor' (Task(...)), 'shallow' (copy.copy(self)) or None (not recognised)"""
+
+    def __init__(self, kind, node, cvar, pure, impure):
+        self.kind, self.node, self.cvar, self.pure, self.impure = kind, node, cvar, pure, impure
+
+
+def task_clone_shape(ctx) -> CloneShape:
+    prog = ctx.prog
+    cl = prog.func('task.Task.clone')
+    sn = cl.self_name
+    ctors = [n for n in walk_no_nested(cl.node) if isinstance(n, ast.Call) and isinstance(n.func, ast.Name) and n.func.id == 'Task']
+    shallow = [n for n in walk_no_nested(cl.node) if isinstance(n, ast.Call) and
+               (match(f"copy.copy({sn})", n) or match(f"copy({sn})", n) and 'copy' in cl.module.imports)]
+    other = [n for n in walk_no_nested(cl.node) if isinstance(n, ast.Call) and
+             getattr(n.func, 'attr', getattr(n.func, 'id', '')) in ('deepcopy', '__new__', '__reduce_ex__', '__class__')]
+    made = ctors + shallow
+    if len(made) != 1 or other:
+        return CloneShape(None, made[0] if made else None, None, None, [])
+    node = made[0]
+    kind = 'ctor' if ctors else 'shallow'
+    cvar = None
+    for d in flow_of(cl).defs:
+        if d.kind == 'assign' and d.value is node:
+            cvar = d.var
+    rets = [n for n in walk_no_nested(cl.node) if isinstance(n, ast.Return)]
+    if not rets or not all(r.value is not None and (r.value is node or (isinstance(r.value, ast.Name) and r.value.id == cvar))
+                           for r in rets):
+        return CloneShape(None, node, cvar, None, [])
+    eff = Effects(prog, ctx.typer, ctx.cg)
+    impure = []
+    if kind == 'ctor':
+        for key in sorted(eff.writes_star(cl)):
+            impure.append((cl.node, f"writes {unmangle(key[0])}", f"Task.clone modifies {unmangle(key[0])} of `{key[1]}` "
+                                                                   f"({' -> '.join(eff.explain(cl, key))[:160]})"))
+    else:
+        # the engine cannot know that copy.copy() returns a new object: judge the receivers here
+        for w in eff.direct_writes(cl):
+            if w.root == 'fresh' or (isinstance(w.recv, ast.Name) and w.recv.id == cvar):
+                continue
+            impure.append((w.node, w.node, f"`{src(w.node)[:70]}` writes {unmangle(str(w.field))} through `{src(w.recv)[:40] if w.recv is not None else '?'}`"))
+        for ci in ctx.cg.calls_in(cl):
+            W = set()
+            for t in ci.targets:
+                W |= eff.writes_star(t)
+            if not W or (ci.name or '') in ('__setattr__', 'setattr', '__getattribute__'):
+                continue                        # dynamic stores are direct writes, judged above
+            n = ci.node
+            recv = n.value if isinstance(n, ast.Attribute) else (n.func.value if isinstance(n, ast.Call) and isinstance(n.func, ast.Attribute) else None)
+            if isinstance(recv, ast.Name) and recv.id == cvar:
+                impure.append((n, n, f"`{src(n)[:70]}` runs a state-changing {ci.kind} on the shallow copy while it still shares the "
+                                     f"source's relation lists"))
+            else:
+                impure.append((n, n, f"`{src(n)[:70]}` changes state outside the copy"))
+    return CloneShape(kind, node, cvar, not impure, impure)
+
+
+def _is_mutable_init(v: ast.AST) -> bool:
+    return isinstance(v, (ast.List, ast.Dict, ast.Set, ast.ListComp, ast.DictComp, ast.SetComp)) or \
+        (isinstance(v, ast.Call) and isinstance(v.func, ast.Name) and v.func.id in ('list', 'dict', 'set'))
+
+
+def _fields_shallow(ctx, o, shape: CloneShape):
+    """Task.clone built on copy.copy(self): every field VALUE is carried over, but every mutable field OBJECT and the
+    parent / owner references are shared with the source until they are re-initialised on the copy"""
+    prog = ctx.prog
+    init = prog.func('task.Task.__init__')
+    cl = prog.func('task.Task.clone')
+    cfg = cfg_of(cl)
+    cvar = shape.cvar
+    o.site(cl, shape.node, f"{cvar} = copy.copy(self): all field values and custom attributes are carried over")
+    stores = _self_stores(init)
+    resets = {}
+    for st, tgt, val in facts.attr_stores(cl):
+        if isinstance(tgt.value, ast.Name) and tgt.value.id == cvar:
+            resets.setdefault(tgt.attr, []).append((st, val))
+    docs = {id(s.value) for s in walk_no_nested(cl.node) if isinstance(s, ast.Expr) and isinstance(s.value, ast.Constant)}
+    strings = {n.value for n in walk_no_nested(cl.node) if isinstance(n, ast.Constant) and isinstance(n.value, str)
+               and id(n) not in docs}
+    dyn = any(isinstance(n, ast.Attribute) and n.attr == '__dict__' for n in walk_no_nested(cl.node))
+    seen = set()
+    for st0, attr, val0 in stores:
+        if attr in seen:
+            continue
+        seen.add(attr)
+        inits = [v for _, a, v in stores if a == attr]
+        state = attr in RELATION_STATE or attr in OWNER_STATE
+        if not state and not any(_is_mutable_init(v) for v in inits):
+            if attr.startswith('_Task__') or (prog.find_setter('Task', attr) is None and prog.find_getter('Task', attr) is None):
+                o.site(cl, shape.node, f"{unmangle(attr)}: value carried over by the shallow copy")
+            continue
+        rs = resets.get(attr, [])
+        good = [(st, v) for st, v in rs if any(same(v, i) for i in inits) and not cfg.conditions(cfg.node_of(st))
+                and cfg.dominates(cfg.node_of(st), cfg.exit)]
+        if good:
+            o.site(cl, good[0][0], f"{unmangle(attr)} re-initialised on the copy ({src(good[0][1])})")
+        elif rs:
+            o.undecided(cl, rs[0][0], rs[0][0], f"{unmangle(attr)} of the shallow copy is reset conditionally or to a value other than the "
+                                                f"constructor's initial value")
+        elif dyn or any(unmangle(attr).lstrip('_') in s for s in strings):
+            o.undecided(cl, shape.node, unmangle(attr), f"cannot see how {unmangle(attr)} of the shallow copy is re-initialised")
+        else:
+            what = ("the copy and the source share ONE list object: later changes to the copy's links show on the source (and vice versa)"
+                    if any(_is_mutable_init(v) for v in inits) else
+                    "the copy still refers to the source's " + ("owner: it does not report the new WBS" if attr in OWNER_STATE else "parent"))
+            o.refute(cl, shape.node, f"{unmangle(attr)} not reset", f"Task.clone is a shallow copy (`{src(shape.node)}`) and never "
+                                                                    f"re-initialises {unmangle(attr)} on the copy: {what}")
+    if shape.pure:
+        o.site(cl, cl.node, "Task.clone writes only to the task it constructs")
+    for node, construct, msg in shape.impure:
+        o.refute(cl, node, construct, f"{msg}: cloning must leave the source unchanged")
+
+
+def _fields(ctx, o):
+    prog = ctx.prog
+    init = prog.func('task.Task.__init__')
+    cl = prog.func('task.Task.clone')
+    task = prog.cls('Task')
+    sn = cl.self_name
+    ex = Expander(prog, cl, ctx.typer)
+    cfg = cfg_of(cl)
+    init_params = set(init.params[1:])
+
+    # ---- the constructor call of the copy
+    ctors = [n for n in walk_no_nested(cl.node) if isinstance(n, ast.Call) and isinstance(n.func, ast.Name) and n.func.id == 'Task']
+    rets = [n for n in walk_no_nested(cl.node) if isinstance(n, ast.Return)]
+    shape = task_clone_shape(ctx)
+    if shape.kind == 'shallow':
+        _fields_shallow(ctx, o, shape)
+        return
+    if len(ctors) != 1 or shape.kind is None and shape.node is None:
+        o.undecided(cl, cl.node, 'Task(...)', f"Task.clone contains {len(ctors)} `Task(...)` constructor calls (expected one) and is not "
+                                              f"a `copy.copy(self)` either")
+        return
+    ctor = ctors[0]
+    bind = _ctor_binding(ctor, init)
+    if bind is None:
+        o.undecided(cl, ctor, ctor, "constructor call of the copy uses *args / **kwargs")
+        return
+    cvar = None
+    for d in ex.flow.defs:
+        if d.kind == 'assign' and d.value is ctor:
+            cvar = d.var
+    if not rets or not all(r.value is not None and (r.value is ctor or (isinstance(r.value, ast.Name) and r.value.id == cvar))
+                           for r in rets):
+        o.undecided(cl, cl.node, 'return', "Task.clone does not return the task it constructed")
+        return
+    for p in sorted(RELATION_PARAMS & set(bind)):
+        o.refute(cl, ctor, f"{p}=", f"Task.clone passes `{p}={src(bind[p])[:40]}` to the constructor: the copy is wired into the "
+                                    f"source's relations (and the source's lists are modified); relations are rebuilt by the WBS")
+
+    def reads(expr, field=None, attr=None):
+        """does expr read self.<field> (private, directly or through a single-return getter) / self.<attr>"""
+        e = ex.expand(expr, cfg.node_containing(ctor))
+        m = match(f"{sn}.$a", e)
+        if not m:
+            return False
+        a = m['a']
+        if attr is not None:
+            return a == attr
+        if a == field:
+            return True
+        g = prog.find_getter('Task', unmangle(a))
+        if g is not None:
+            body = [s for s in g.body if not (isinstance(s, ast.Expr) and isinstance(s.value, ast.Constant))]
+            return len(body) == 1 and isinstance(body[0], ast.Return) and match(f"{g.self_name}.{field}", body[0].value) is not None
+        return False
+
+    # ---- private data fields of __init__
+    stores = _self_stores(init)
+    private = []
+    for st, attr, val in stores:
+        if attr.startswith('_Task__') and attr not in private:
+            private.append(attr)
+    for fld in private:
+        if fld in RELATION_STATE or fld in OWNER_STATE:
+            continue
+        feed = None
+        for st, attr, val in stores:
+            if attr == fld and isinstance(val, ast.Name) and val.id in init_params:
+                feed = val.id
+        if feed is None:
+            for pname, setter in task.setters.items():
+                vp = setter.params[1] if len(setter.params) > 1 else None
+                if any(isinstance(v, ast.Name) and v.id == vp for _, _, v in facts.attr_stores(setter, fld)):
+                    for st, attr, val in stores:
+                        if attr == pname and isinstance(val, ast.Name) and val.id in init_params:
+                            feed = val.id
+        if feed is None:
+            o.undecided(init, init.node, unmangle(fld), f"private field {unmangle(fld)} of Task.__init__ is neither relation/owner state "
+                                                        f"nor fed by a constructor parameter: cannot decide whether Task.clone must copy it")
+            continue
+        arg = bind.get(feed)
+        if arg is None:
+            o.refute(cl, ctor, unmangle(fld), f"private data field {unmangle(fld)} (constructor parameter `{feed}`) is not passed to "
+                                              f"`Task(...)` in Task.clone and the generic loop skips names starting with '_': every copy "
+                                              f"gets the default instead of the source's value")
+        elif reads(arg, field=fld):
+            o.site(cl, ctor, f"{unmangle(fld)} -> {feed}={src(arg)}")
+        else:
+            e = ex.expand(arg, cfg.node_containing(ctor))
+            if match(f"{sn}.$a", e):
+                o.refute(cl, ctor, f"{feed}={src(arg)}", f"constructor parameter `{feed}` (field {unmangle(fld)}) receives `{src(arg)}`, "
+                                                         f"which reads a different field of the source")
+            else:
+                o.undecided(cl, ctor, f"{feed}={src(arg)}", f"cannot show that `{src(arg)}` is the source's value of {unmangle(fld)}")
+
+    # ---- generic loop over the public instance attributes
+    loops = [l for l in find_copy_loops(ctx, cl) if isinstance(l.src_caller, ast.Name) and l.src_caller.id == sn]
+    loop_ok = False
+    for l in loops:
+        fine = report_copy_loop(o, cl, l, "Task attribute")
+        if fine and not (isinstance(l.dst_caller, ast.Name) and l.dst_caller.id == cvar):
+            o.undecided(cl, l.call, l.call, "the attribute copy loop does not write to the task returned by clone")
+            fine = False
+        if fine and not l.on_every_path(cl):
+            o.undecided(l.func, l.for_node, l.for_node.iter, "the attribute copy loop is not on every path to the return")
+            fine = False
+        if fine:
+            loop_ok = True
+            o.site(l.func, l.for_node, "for k in self.__dict__: if not k.startswith('_'): copy.__setattr__(k, self.__getattribute__(k))")
+    if not loops:
+        if copy_idiom_in_reach(ctx, cl, {'task.Task.__init__'}):
+            o.undecided(cl, cl.node, 'attribute copy', "Task.clone copies attributes in an idiom the rule does not recognise")
+        else:
+            o.refute(cl, cl.node, 'no attribute copy loop', "Task.clone has no loop over self.__dict__: custom attributes (kwargs / "
+                                                            "set later) are never copied")
+
+    # ---- every public instance attribute assigned in __init__ is covered
+    public = []
+    for st, attr, val in stores:
+        if not attr.startswith('_') and attr not in public and prog.find_setter('Task', attr) is None \
+                and prog.find_getter('Task', attr) is None:
+            public.append((attr, val))
+    seen = set()
+    for attr, val in public:
+        if attr in seen:
+            continue
+        seen.add(attr)
+        feed = val.id if isinstance(val, ast.Name) and val.id in init_params else None
+        arg = bind.get(feed) if feed else None
+        if arg is not None and reads(arg, attr=attr):
+            o.site(cl, ctor, f"{attr}: constructor argument {feed}={src(arg)}")
+        elif loop_ok:
+            o.site(loops[0].func, loops[0].for_node, f"{attr}: public instance attribute, covered by the generic loop")
+        elif loops:
+            o.refute(cl, ctor, attr, f"public field `{attr}` of Task.__init__ is neither passed to the constructor in Task.clone nor "
+                                     f"copied by an unfiltered loop over the public attributes: the copy keeps the constructor default")
+        # no loop at all: already refuted above
+
+    # ---- purity of Task.clone
+    eff = Effects(prog, ctx.typer, ctx.cg)
+    ws = eff.writes_star(cl)
+    if ws:
+        for key in sorted(ws):
+            o.refute(cl, cl.node, f"writes {unmangle(key[0])}", f"Task.clone modifies {unmangle(key[0])} of `{key[1]}` "
+                                                                f"({' -> '.join(eff.explain(cl, key))[:160]}): cloning must leave the source unchanged")
+    else:
+        o.site(cl, cl.node, "Task.clone writes only to the task it constructs")
+
 
 
 # =====================================================================================================================
@@ -690,8 +1070,9 @@ class CloneAnalysis:
                 self.gmap, self.gcall = d.var, d.value
         gp = self.g.params
         self.G = Labeller(ctx, self.g, self.gmap, {gp[1]: Lab('SRCS', {'ROOTS'})} if len(gp) > 1 else {})
-        self.setdefaults: List[ast.Call] = []
-        for name in ('map', 'externals', 'relations', 'assembly', 'wbs_attrs', 'no_source_writes', 'once'):
+        self.setdefaults: List[tuple] = []          # (function, labeller, call)
+        self.helpers: List[tuple] = []              # (helper function, labeller) that receive the clone map
+        for name in ('map', 'externals', 'relations', 'assembly', 'wbs_attrs', 'no_source_writes', 'once', 'fields'):
             self.clause = name.replace('_', '-')
             getattr(self, '_' + name)()
 
@@ -747,38 +1128,69 @@ class CloneAnalysis:
             return
         d = ds[0]
         val = L.expand(d.value, d.node)
-        if not isinstance(val, ast.DictComp) or len(val.generators) != 1 or not isinstance(val.generators[0].target, ast.Name):
-            self.undecided(f, d.stmt, d.value, "the clone map is not created by a single dict comprehension over the selected tasks")
+        self.creation = None
+        if isinstance(val, ast.DictComp) and len(val.generators) == 1 and isinstance(val.generators[0].target, ast.Name):
+            g = val.generators[0]
+            v, key, cv, stmt, at = g.target.id, val.key, val.value, d.stmt, d.node
+            filt = ' and '.join(src(c) for c in g.ifs)
+            il = L.lab(g.iter, d.node, {})
+            it_txt = L.short(g.iter)
+        elif isinstance(val, ast.Dict) and not val.keys or match("dict()", val):
+            # statement form:  m = {}; for t in <selection>: m[t.id] = t.clone()
+            cands = []
+            for n in walk_no_nested(f.node):
+                if isinstance(n, ast.Assign) and len(n.targets) == 1 and isinstance(n.targets[0], ast.Subscript) and \
+                        L.is_map(n.targets[0].value) and any(isinstance(x, ast.Call) and isinstance(x.func, ast.Attribute)
+                                                              and x.func.attr == 'clone' for x in ast.walk(n.value)):
+                    cands.append(n)
+            if len(cands) != 1:
+                self.undecided(f, d.stmt, d.stmt, "the clone map starts empty and is not filled by exactly one `map[t.id] = t.clone()` loop")
+                return
+            stmt = cands[0]
+            at = L.cfg.node_of(stmt)
+            fors = L.cfg.enclosing_fors(at)
+            if len(fors) != 1 or not isinstance(fors[0].target, ast.Name) or L.cfg.enclosing_fors(L.cfg.node_of(fors[0])):
+                self.undecided(f, stmt, stmt, "`map[t.id] = t.clone()` is not inside exactly one loop over the selection")
+                return
+            fo = fors[0]
+            v, key, cv = fo.target.id, L.expand(stmt.targets[0].slice, at), L.expand(stmt.value, at)
+            conds = [c for c in L.cfg.conditions(at)]
+            filt = ' and '.join(facts.cond_texts(conds))
+            hn = L.cfg.node_of(fo)
+            if L.cfg.conditions(hn) or not L.cfg.dominates(hn, L.cfg.exit):
+                self.undecided(f, fo, fo.iter, "the loop filling the clone map does not run on every path")
+                return
+            il = L.lab(L.expand(fo.iter, hn), hn, {})
+            it_txt = L.short(L.expand(fo.iter, hn))
+            self.creation = stmt.targets[0]
+        else:
+            self.undecided(f, d.stmt, d.value, "the clone map is not created by a dict comprehension / a single fill loop over the selected tasks")
             return
-        g = val.generators[0]
-        v = g.target.id
-        if not match(f"{v}.id", val.key):
-            self.undecided(f, d.stmt, val.key, "the clone map is not keyed by the id of the task being cloned")
+        if not match(f"{v}.id", key):
+            self.undecided(f, stmt, stmt, "the clone map is not keyed by the id of the task being cloned")
             return
-        cv = val.value
         if isinstance(cv, ast.Name) and cv.id == v:
-            self.refute(f, d.stmt, d.value, "the clone map holds the selected source tasks themselves (no clone()): the relation "
-                                            "rebuild then rewires the source WBS")
+            self.refute(f, stmt, stmt, "the clone map holds the selected source tasks themselves (no clone()): the relation "
+                                       "rebuild then rewires the source WBS")
             return
         if not (isinstance(cv, ast.Call) and isinstance(cv.func, ast.Attribute) and cv.func.attr == 'clone'
                 and isinstance(cv.func.value, ast.Name) and cv.func.value.id == v):
-            self.undecided(f, d.stmt, cv, "map values are not `<task>.clone()`")
+            self.undecided(f, stmt, stmt, "map values are not `<task>.clone()`")
             return
         if cv.args or cv.keywords:
-            self.refute(f, d.stmt, cv, "clone() is called with overriding arguments: the copies do not carry the source's field values")
+            self.refute(f, stmt, cv, "clone() is called with overriding arguments: the copies do not carry the source's field values")
             return
-        if g.ifs:
-            self.refute(f, d.stmt, d.value, "the clone map comprehension is filtered: some selected tasks get no copy "
-                                            "(`" + ' and '.join(src(c) for c in g.ifs) + "`)")
+        if filt:
+            self.refute(f, stmt, stmt, f"the clone map is filled under a filter (`{filt}`): some selected tasks get no copy")
             return
-        il = L.lab(g.iter, d.node, {})
         if il.kind != 'SRCS':
-            self.undecided(f, d.stmt, g.iter, "cannot show that the cloned collection is the selection (given roots and descendants)")
+            self.undecided(f, stmt, it_txt, "cannot show that the cloned collection is the selection (given roots and descendants)")
             return
         bad = full_selection(il)
         if bad:
-            self.refute(f, d.stmt, g.iter, f"clone map is built over an incomplete selection: {bad}")
+            self.refute(f, stmt, it_txt, f"clone map is built over an incomplete selection: {bad}")
             return
+        d = type('D', (), {'stmt': stmt})
         self.site(f, d.stmt, f"{self.mapvar} = {{t.id: t.clone()}} over roots + all_children")
 
     # ---------------------------------------------------------------- (b) every other use of the map
@@ -802,7 +1214,7 @@ class CloneAnalysis:
             if isinstance(p, ast.Return):
                 continue
             if isinstance(p, ast.Subscript) and p.value is n:
-                if isinstance(p.ctx, ast.Load):
+                if isinstance(p.ctx, ast.Load) or p is getattr(self, 'creation', None):
                     continue
                 self.refute(F, where, par.get(id(p), p), f"plain {'assignment to' if isinstance(p.ctx, ast.Store) else 'deletion of'} "
                                                          f"`{src(p)}`: a copy in the clone map can be overwritten / removed; outside "
@@ -814,10 +1226,10 @@ class CloneAnalysis:
                     if p.attr in MAP_READS:
                         continue
                     if p.attr == 'setdefault':
-                        if inlined or F is not self.f:
+                        if inlined or not (F is self.f or any(F is h for h, _ in self.helpers)):
                             self.undecided(F, where, gp, "setdefault on the clone map outside __clone_tasks / inside a helper")
                         else:
-                            self.setdefaults.append(gp)
+                            self.setdefaults.append((F, L, gp))
                         continue
                     if p.attr in MAP_DESTRUCTIVE:
                         self.refute(F, where, gp, f"`{src(gp)[:80]}` can overwrite or remove the copy of a selected task in the clone "
@@ -842,14 +1254,49 @@ class CloneAnalysis:
                         self._uses(F, L, ast.Expr(value=exp), call, True)       # a one-line helper was inlined
                         continue
                     ci = [c for c in self.ctx.cg.calls_in(F) if c.node is call]
+                    if F is self.f and ci and self._map_helper(F, L, call, ci[0], n):
+                        continue
                     if ci and not ci[0].targets and (ci[0].name or '') not in MUTATORS and \
                             not (isinstance(call.func, ast.Name) and call.func.id in self.prog.classes):
                         continue            # print / logging: no package code receives the map
             self.undecided(F, where, p if p is not None else n, "the clone map escapes (alias, argument of a package function, ...): "
                                                                "insertions can no longer be enumerated")
 
-    def _ext_test(self, atom: ast.AST, pol: bool, v: ast.AST) -> Optional[str]:
-        sn = self.f.self_name
+    def _map_helper(self, F: Func, L: Labeller, call: ast.Call, ci, map_name: ast.Name) -> bool:
+        """the clone map is handed to a (multi statement) private helper of the same class: analyse the helper's uses of
+        that parameter with the caller's labels for the other arguments"""
+        if len(ci.targets) != 1 or ci.targets[0].kind not in ('method', 'static') or ci.targets[0].cls != F.cls or call.keywords:
+            return False
+        h = ci.targets[0]
+        if h is F or any(h is x for x, _ in self.helpers) or any(isinstance(a, ast.Starred) for a in call.args):
+            return False
+        cn = L.node(call)
+        if cn is None or L.cfg.conditions(cn) or L.cfg.enclosing_loops(cn) or not L.cfg.dominates(cn, L.cfg.exit):
+            return False                       # helper must run exactly once, unconditionally
+        ps = list(h.params)[1:] if h.kind == 'method' else list(h.params)
+        if h.kind == 'method' and not (isinstance(call.func, ast.Attribute) and isinstance(call.func.value, ast.Name)
+                                       and call.func.value.id == F.self_name):
+            return False
+        if len(call.args) > len(ps):
+            return False
+        pmap, params = None, {}
+        for p, a in zip(ps, call.args):
+            if a is map_name:
+                pmap = p
+            else:
+                params[p] = L.label(a, cn)
+        if pmap is None:
+            return False
+        hl = Labeller(self.ctx, h, pmap, params)
+        if len(hl.flow.defs_of(pmap)) != 1:
+            return False                       # the helper rebinds the parameter
+        if any(isinstance(r, ast.Return) and r.value is not None for r in walk_no_nested(h.node)):
+            return False
+        self.helpers.append((h, hl))
+        self._uses(h, hl, h.node, None, False)
+        return True
+
+    def _ext_test(self, atom: ast.AST, pol: bool, v: ast.AST, sn: Optional[str]) -> Optional[str]:
         for pat, ne in (("$a != $b", True), ("$a is not $b", True), ("$a == $b", False), ("$a is $b", False)):
             m = match(pat, atom)
             if not m:
@@ -869,11 +1316,10 @@ class CloneAnalysis:
     def _externals(self):
         if not self._need_map():
             return
-        f, L = self.f, self.L
-        self._uses(f, L, f.node, None, False)
+        self._uses(self.f, self.L, self.f.node, None, False)
         covered = {}
         unknown_cov = False
-        for call in self.setdefaults:
+        for f, L, call in self.setdefaults:
             cn = L.node(call)
             if len(call.args) != 2 or call.keywords:
                 self.undecided(f, call, call, "setdefault with an unexpected argument list")
@@ -894,7 +1340,7 @@ class CloneAnalysis:
             verdicts, ext, mentions_v = [], False, False
             for atom, pol in self._atoms(L, cn):
                 an = {n.id for n in ast.walk(atom) if isinstance(n, ast.Name)}
-                t = self._ext_test(atom, pol, v)
+                t = self._ext_test(atom, pol, v, f.self_name)
                 if t == 'EXT':
                     ext = mentions_v = True
                     continue
@@ -960,6 +1406,7 @@ class CloneAnalysis:
             else:
                 unknown_cov = True
                 self.site(f, call, note)
+        f = self.f
         if not any(k == 'refute' or k == 'undecided' for c, k, *_ in self.facts if c == 'externals'):
             for r in DEP_RELS:
                 if r not in covered and unknown_cov:
@@ -985,6 +1432,8 @@ class CloneAnalysis:
             return
         f, L = self.f, self.L
         good = {}
+        self._parent_lookup_seen = False
+        parent_none_only = []
         for st, tgt, val in facts.attr_stores(f):
             rel = tgt.attr
             if rel not in ALL_RELS:
@@ -1011,6 +1460,9 @@ class CloneAnalysis:
             stmt_atoms = self._atoms(L, cn)
             if rel == 'parent':
                 ok = self._parent_rhs(st, tgt, rhs, cn, rl.origin, stmt_atoms)
+                if ok == 'none-only':
+                    parent_none_only.append(st)
+                    continue
             else:
                 ok = self._list_rhs(st, tgt, rel, rhs, cn, rl.origin)
                 if ok and stmt_atoms:
@@ -1019,6 +1471,9 @@ class CloneAnalysis:
                     ok = False
             if ok:
                 good.setdefault(rel, st)
+        if parent_none_only and 'parent' not in good:
+            self.refute(f, parent_none_only[0], parent_none_only[0], "the parent of every copy is set to None: the hierarchy is not "
+                                                                     "carried over", 'relations')
         problems = any(k in ('refute', 'undecided') for c, k, *_ in self.facts if c in ('relations', 'receivers'))
         if problems:
             return
@@ -1121,7 +1576,7 @@ class CloneAnalysis:
                 rel_bad('refute', f"`{sh(e)[:60]}` subscripts the clone map with the parent's id: for subtree() the parent of a given "
                                   f"root is a non-selected member, so this raises KeyError (expected map.get(..) -> None)")
         if prov_ok and rel_ok and not found:
-            rel_bad('refute', "the parent of every copy is set to None: the hierarchy is not carried over")
+            return 'none-only'          # `<copy>.parent = None` (the else-branch of an if/else form): judged over all parent stores
         if prov_ok:
             self.site(f, st, "copy.parent = map.get(src.parent.id) if src.parent else None", 'receivers')
         if prov_ok and rel_ok:
@@ -1352,8 +1807,8 @@ class CloneAnalysis:
     # ---------------------------------------------------------------- (f) no store / mutation through a source object
     def _no_source_writes(self):
         chain = {self.f.qual, self.g.qual}
-        for F, L in ((self.f, self.L), (self.g, self.G), (self.e_clone, Labeller(self.ctx, self.e_clone)),
-                     (self.e_subtree, Labeller(self.ctx, self.e_subtree, None, {}))):
+        for F, L in [(self.f, self.L), (self.g, self.G), (self.e_clone, Labeller(self.ctx, self.e_clone)),
+                     (self.e_subtree, Labeller(self.ctx, self.e_subtree, None, {}))] + list(self.helpers):
             n_ok = 0
             for w in self.eff.direct_writes(F):
                 if w.root == 'fresh':
@@ -1375,6 +1830,15 @@ class CloneAnalysis:
                 for t in ci.targets:
                     W |= self.eff.writes_star(t)
                 if not W or any(t.qual in chain for t in ci.targets):
+                    continue
+                if any(t.qual == 'task.Task.clone' for t in ci.targets):
+                    shape = task_clone_shape(self.ctx)
+                    if shape.pure:
+                        n_ok += 1
+                    elif shape.pure is None:
+                        self.undecided(F, ci.node, ci.node, "Task.clone is built in an idiom the rule does not recognise: cannot show "
+                                                            "that it leaves the source task unchanged")
+                    # pure is False: reported by the 'fields' clause
                     continue
                 if ci.kind == 'ctor':
                     n_ok += 1
@@ -1405,6 +1869,7 @@ class CloneAnalysis:
                                         written.append(bind[nm])
                                 else:
                                     opaque = True
+                    written = [x for x in written if not (L.is_map(x) or self.eff.container_root(x, F) == 'fresh')]
                     labs = [(x, L.label(x)) for x in written]
                     bad = [(x, l) for x, l in labs if l.kind in SOURCEISH or (l.kind in ('MAPPED', 'MAPPEDS') and l.origin == 'link')]
                     if bad:
@@ -1425,6 +1890,10 @@ class CloneAnalysis:
                     self.undecided(F, node, node, f"state-changing {ci.kind} `{src(node)[:70]}` on a receiver the rule cannot classify")
             self.site(F, F.node, f"{n_ok} store/setter/mutator site(s), all on copies or fresh objects")
 
+    # ---------------------------------------------------------------- Task.clone
+    def _fields(self):
+        _fields(self.ctx, _Recorder(self, 'fields'))
+
     # ---------------------------------------------------------------- once
     def _once(self):
         f, g = self.f, self.g
@@ -1434,8 +1903,12 @@ class CloneAnalysis:
                 if isinstance(c.func, ast.Attribute):
                     clones.append((F, c))
         mapdef = self.L.flow.defs_of(self.mapvar)[0] if self.mapvar and self.L.flow.defs_of(self.mapvar) else None
+        creation = getattr(self, 'creation', None)
+        cstmt = None
+        if creation is not None:
+            cstmt = next((n for n in walk_no_nested(f.node) if isinstance(n, ast.Assign) and n.targets and n.targets[0] is creation), None)
         in_map = [(F, c) for F, c in clones if mapdef is not None and mapdef.value is not None and
-                  any(x is c for x in ast.walk(mapdef.value))]
+                  (any(x is c for x in ast.walk(mapdef.value)) or (cstmt is not None and any(x is c for x in ast.walk(cstmt.value))))]
         for F, c in clones:
             if (F, c) in in_map:
                 continue
@@ -1447,7 +1920,7 @@ class CloneAnalysis:
             elif rl.kind in SOURCEISH or rl.kind == 'UNKNOWN':
                 self.refute(F, c, c, f"`{src(c)[:60]}`: a second clone() of a task on the clone path; only the copy stored in the clone "
                                      f"map takes part in the relation rebuild, any other copy has no relations")
-        if len(in_map) == 1 and isinstance(mapdef.value, ast.DictComp) and len(mapdef.value.generators) == 1:
+        if len(in_map) == 1 and (cstmt is not None or isinstance(mapdef.value, ast.DictComp) and len(mapdef.value.generators) == 1):
             self.site(f, in_map[0][1], "the only clone() on the path: value of the clone-map comprehension (one per id)")
         elif mapdef is not None:
             self.undecided(f, mapdef.stmt, mapdef.stmt, "clone() is not called exactly once inside the clone-map comprehension")
@@ -1524,8 +1997,9 @@ def clone_provenance(ctx, o, clauses=None):
     clauses: iterable of clause names out of PROVENANCE_ALL (+ 'once'); default = PROVENANCE_ALL, i.e. (a) map creation,
     (b) externals only via guarded setdefault, (c) receivers/arguments of the relation rebuild, (c/d) relations rebuilt
     faithfully, (e) assembly through a fresh WBS and WBS attribute copy on the shared path, (f) no write through a source
-    object.  Sites on today's tree: map 1, externals 2, receivers 4, relations 4, assembly 2, wbs-attrs 3,
-    no-source-writes 4, once 5 (all clauses of PROVENANCE_ALL: 20)."""
+    object.  Further clauses on request: 'fields' (Task.clone itself: Task(...) + generic loop, or copy.copy(self) + reset of
+    every relation/owner field) and 'once'.  Sites on today's tree: map 1, externals 2, receivers 4, relations 4, assembly 2,
+    wbs-attrs 3, no-source-writes 4 (PROVENANCE_ALL: 20), fields 11, once 5."""
     ctx.assume("ids are unique among the tasks selected for cloning (C05): <selection by id>[t.id] is t")
     ctx.assume("calls that resolve to no function of the package (print / logging) do not modify tasks")
     an = analysis(ctx)
